@@ -4,6 +4,8 @@
                             harness (GoStr/Match.v) or `unparsed`;  RT = the value of that text
                             compiled and evaluated in a second program (stage 2), serialised by the
                             driver runtime, or `nocompile` / `missing`.
+     (gsk TY VAL TEXT RT)   the same for a type with a map whose KEY type owns pointers: judged with the
+                            typing and the multiset equality of GoStr/PtrKeys.v (keys by content).
      (sup-gs TY CLASS)      goderive's answer for a type whose fields are all exported.
 
    model_ok = TEXT is exactly the model's expression (S) and RT is what the model's evaluator
@@ -11,7 +13,7 @@
               guard: infinite floats, unexported fields) the Go compiler must reject it too;
    spec_ok  = RT is structurally equal (C02's spec_eq) to VAL: the round trip. *)
 From Coq Require Import String.
-From Verif Require Import Base Sexp Go.Ty Go.Val Go.Equal GoStr.Model GoStr.Geval GoStr.Match.
+From Verif Require Import Base Sexp Go.Ty Go.Val Go.Equal GoStr.Model GoStr.Geval GoStr.Match GoStr.PtrKeys.
 Open Scope string_scope.
 
 (* ---------- printers (for the replay file) ---------- *)
@@ -140,34 +142,73 @@ Definition root_tag (t : ty) (v : val) : string :=
 
 Definition sp_true (o : option bool) : bool := match o with Some true => true | _ => false end.
 
+(* one `gs` / `gsk` observation, given the typing and the structural equality it is judged with *)
+Definition eval_gs (typing : ty -> val -> bool) (eq : ty -> val -> val -> option bool) (pre : string)
+                   (tys vs text rts : sexp) : verdict :=
+  match parse_ty tys, parse_val vs with
+  | Some t, Some v =>
+      let typed := typing t v in
+      let guard := (typed && exp_only t && finite [] t v)%bool in
+      let rt := parse_val rts in
+      let m := gostring_model t v in
+      let mv := match m with Ok g => gostring_eval t g | _ => None end in
+      let s_ok := match m with Ok g => gmatch g text | _ => false end in
+      let b_ok := match mv, rt with
+                  | Some a, Some b => sp_true (eq t a b)
+                  (* the evaluator rejects the text: so must the Go compiler *)
+                  | None, None => sym_is "nocompile" rts
+                  | _, _ => false
+                  end in
+      {| v_known := typed;
+         v_model_ok := (s_ok && b_ok)%bool;
+         v_spec_ok := match rt with Some b => sp_true (eq t v b) | None => false end;
+         v_guard := guard;
+         v_model := L [Sym (if s_ok then "text-ok" else "text-differs");
+                       match m with Ok g => gexpr_sexp g | Unsup => Sym "unsupported" | _ => Sym "stuck" end;
+                       match mv with Some a => val_sexp a | None => Sym "no-value" end];
+         v_tag := pre ++ root_tag t v |}
+  | _, _ => bad_line
+  end.
+
+(* does some map in the value hold two keys that are equal by content (they differ in addresses only)? *)
+Fixpoint twin_keys (e : tenv) (t : ty) (v : val) {struct v} : bool :=
+  match resolve e t with
+  | None => false
+  | Some r =>
+      let e' := r_env r in
+      match r_node r, v with
+      | TP t', VPtr _ v' => twin_keys e' t' v'
+      | TSl t', VSl _ es _ => existsb (twin_keys e' t') es
+      | TAr _ t', VArr es => existsb (twin_keys e' t') es
+      | TM tk tv, VMap _ kvs =>
+          (existsb (fun kv => twin_keys e' tv (snd kv)) kvs ||
+           (fix dup (l : list (val * val)) : bool :=
+              match l with
+              | [] => false
+              | kv :: l' => (existsb (fun kv' => sp_true (spec_eqk e' tk (fst kv) (fst kv'))) l' || dup l')%bool
+              end) kvs)%bool
+      | TSt fs, VSt vs =>
+          (fix go (fs : list (bool * ty)) (vs : list val) {struct vs} : bool :=
+             match fs, vs with
+             | fd :: fs', x :: vs' => (twin_keys e' (snd fd) x || go fs' vs')%bool
+             | _, _ => false
+             end) fs vs
+      | _, _ => false
+      end
+  end.
+
 Definition eval06 (e : sexp) : verdict :=
   match e with
   | L [Sym k; tys; vs; text; rts] =>
       if String.eqb k "gs" then
-        match parse_ty tys, parse_val vs with
-        | Some t, Some v =>
-            let typed := has_type [] t v in
-            let guard := (typed && exp_only t && finite [] t v)%bool in
-            let rt := parse_val rts in
-            let m := gostring_model t v in
-            let mv := match m with Ok g => gostring_eval t g | _ => None end in
-            let s_ok := match m with Ok g => gmatch g text | _ => false end in
-            let b_ok := match mv, rt with
-                        | Some a, Some b => sp_true (spec_eq [] t a b)
-                        (* the evaluator rejects the text: so must the Go compiler *)
-                        | None, None => sym_is "nocompile" rts
-                        | _, _ => false
-                        end in
-            {| v_known := typed;
-               v_model_ok := (s_ok && b_ok)%bool;
-               v_spec_ok := match rt with Some b => sp_true (spec_eq [] t v b) | None => false end;
-               v_guard := guard;
-               v_model := L [Sym (if s_ok then "text-ok" else "text-differs");
-                             match m with Ok g => gexpr_sexp g | Unsup => Sym "unsupported" | _ => Sym "stuck" end;
-                             match mv with Some a => val_sexp a | None => Sym "no-value" end];
-               v_tag := root_tag t v |}
-        | _, _ => bad_line
-        end
+        eval_gs (has_type []) (spec_eq []) "" tys vs text rts
+      else if String.eqb k "gsk" then
+        (* a map whose key type owns pointers (GoStr/PtrKeys.v) *)
+        let pre := match parse_ty tys, parse_val vs with
+                   | Some t, Some v => if twin_keys [] t v then "ptrkey-twins/" else "ptrkey/"
+                   | _, _ => "ptrkey/"
+                   end in
+        eval_gs (has_typek []) (spec_eqk []) pre tys vs text rts
       else bad_line
   | L [Sym k; tys; Sym cls] =>
       if String.eqb k "sup-gs" then
